@@ -51,6 +51,10 @@ use crate::text::line_break::{is_line_break, line_break_len};
 /// starting point, not a tuned constant.
 const FORWARD_WALK_CAP: u32 = 16;
 
+/// Verification hook: the private walk cap, readable by the external harness.
+#[cfg(feature = "verif-hooks")]
+pub const VERIF_FORWARD_WALK_CAP: u32 = FORWARD_WALK_CAP;
+
 /// One cached `(offset, line, line_start)` lookup, so a monotone walk of
 /// [`LineIndex::to_line_column`] — e.g. `.[] | line` visiting array elements
 /// in document order — resolves in amortised O(1) instead of a fresh
